@@ -436,6 +436,126 @@ def replay(chk: Check, invs, fixed=None):
     return viol, drift
 
 
+def two_day_windows(chk: Check):
+    """C07: the 48-hour profile handed to the peak-duration simulation is the day before + the day of the peak, from the array of the
+    SAME load direction, wrapping to 31 December for a 1 January peak. Calendar.tla gives the index windows; the real
+    process_two_day_loads runs on identity profiles (value = 10000 + hour for rejection, 20000 + hour for extraction)."""
+    from .p_calendar import cal_cfg  # noqa: PLC0415
+    from .p_polygon import tab  # noqa: PLC0415
+
+    res = run_tlc("Calendar", cal_cfg(12, 0, 1, 0, ["WindowOK"]), want_prints=False)
+    chk.add_tlc(res)
+    if res.violated:
+        chk.violation("Calendar.tla invariant WindowOK violated", {})
+        return
+    require_tlc_ok(res, "Calendar windows")
+    res = run_tlc("Calendar", cal_cfg(12, 0, 1, 0, [], ["EmitWindows"]), workers=1)
+    require_tlc_ok(res, "Calendar windows gen")
+    rows = {p["m"]: (tab(p["first"]), tab(p["last"])) for p in res.prints if p.get("t") == "window"}
+    if len(rows) != 12:
+        raise MachineryError("window tables incomplete")
+    import_repo()
+    import ghedesigner.ground_loads as ghl  # noqa: PLC0415
+
+    n = 0
+    for which in ("cl", "hl"):
+        for m in range(1, 13):
+            for d in range(DAYS[m - 1]):
+                hl = ghl.HybridLoad.__new__(ghl.HybridLoad)
+                hl.hourly_rejection_loads = [10000.0 + h for h in range(8760)]
+                hl.hourly_extraction_loads = [20000.0 + h for h in range(8760)]
+                hl.days_in_month = [0] + DAYS
+                hl.monthly_peak_cl_day = [0] * 13
+                hl.monthly_peak_hl_day = [0] * 13
+                (hl.monthly_peak_cl_day if which == "cl" else hl.monthly_peak_hl_day)[m] = d
+                hl.two_day_hourly_peak_cl_loads = [[0]]
+                hl.two_day_hourly_peak_hl_loads = [[0]]
+                hl.process_two_day_loads()
+                w = (hl.two_day_hourly_peak_cl_loads if which == "cl" else hl.two_day_hourly_peak_hl_loads)[m]
+                base = 10000.0 if which == "cl" else 20000.0
+                first, last = rows[m][0][d], rows[m][1][d]
+                want = [base + ((first + j) % 8760) for j in range(48)]
+                n += 1
+                if list(w) != want or want[-1] != base + last:
+                    chk.violation(f"C07: two-day profile of the {'rejection' if which == 'cl' else 'extraction'} peak on day {d} of month {m} is not the 48 hours ending with the peak day "
+                                  f"(got {list(w)[:3]}..{list(w)[-2:]}, expected {want[:3]}..{want[-2:]})", {"month": m, "day": d, "direction": which})
+                    return
+    chk.traces += n
+    chk.evaluations += n
+    chk.note("two_day_windows_replayed", n)
+
+
+def _duration_case(seed):
+    """C07 last clause (Cullin & Spitler): duration = time after which a constant (peak - average) load changes the fluid temperature as much as the
+    peak-scaled two-day profile does at its maximum - judged by the spec-bound superposition reference (p_numeric.eft_ref)."""
+    import warnings  # noqa: PLC0415
+
+    import numpy as np  # noqa: PLC0415
+    from scipy.interpolate import interp1d  # noqa: PLC0415
+
+    from .p_numeric import _mk_real_ghe, eft_ref  # noqa: PLC0415
+
+    import_repo()
+    from ghedesigner.constants import TWO_PI  # noqa: PLC0415
+
+    rnd = random.Random(seed)
+    bad = []
+    n = 0
+    with warnings.catch_warnings():
+        warnings.simplefilter("ignore")
+        g = _mk_real_ghe(1, 2, rnd.choice([70.0, 100.0, 130.0]), soil_k=rnd.choice([1.6, 2.4, 3.1]), pipe=rnd.choice(["single", "double"]))
+        hl = g.hybrid_load
+        ts = hl.radial_numerical.t_s
+        gsts = hl.radial_numerical.g_sts
+        rb = hl.bhe.calc_effective_borehole_resistance()
+        tpk = TWO_PI * hl.bhe.soil.k
+        for _ in range(12):
+            shape = rnd.choice(["spike", "plateau", "ramp", "noisy"])
+            w = [0.0] * 48
+            pk = rnd.uniform(5, 60)
+            if shape == "spike":
+                w[rnd.randrange(24, 48)] = pk
+                for i in range(48):
+                    w[i] = max(w[i], rnd.uniform(0, 0.3) * pk)
+            elif shape == "plateau":
+                a = rnd.randrange(20, 40)
+                for i in range(a, min(48, a + rnd.randrange(2, 12))):
+                    w[i] = pk
+            elif shape == "ramp":
+                w = [pk * i / 47.0 for i in range(48)]
+            else:
+                w = [rnd.uniform(0, 1) * pk for _ in range(48)]
+                w[rnd.randrange(24, 48)] = pk
+            avg = rnd.uniform(0.05, 0.6) * pk
+            two_day = [0.0] + w
+            d_code, _, _ = hl.perform_current_month_simulation(two_day, pk, avg, [], [])
+            # reference from the property text
+            t = np.arange(1, 49, dtype=float)
+            q_peak = np.full(48, pk - avg)
+            q_nom = np.array([(two_day[i] - avg) / pk * two_day[i] for i in range(1, 49)])
+            dt_peak = np.concatenate(([0.0], eft_ref(q_peak, t, gsts, ts, tpk, 1.0, 1, 0.0, rb, 1e300, 1.0)))
+            dt_nom = np.concatenate(([0.0], eft_ref(q_nom, t, gsts, ts, tpk, 1.0, 1, 0.0, rb, 1e300, 1.0)))
+            mx = float(dt_nom.max())
+            d_ref = float(interp1d(dt_peak, np.arange(49, dtype=float), fill_value="extrapolate")(mx)) if mx > 0 else 1e-6
+            n += 1
+            if abs(d_code - d_ref) > 1e-6 * max(1.0, abs(d_ref)):
+                bad.append(f"peak duration {d_code!r} h, the Cullin-Spitler definition gives {d_ref!r} h (shape {shape}, peak {pk:.3f}, average {avg:.3f})")
+            if mx > 0 and not (0 < d_code):
+                bad.append(f"peak duration {d_code!r} h is not positive (shape {shape})")
+    return n, bad
+
+
+def duration_definition(chk: Check):
+    seeds = [chk.seed * 17 + i for i in range(8 if tier() == "quick" else 64)]
+    tot = 0
+    for n, bad in parallel_map(_duration_case, seeds):
+        tot += n
+        for b in bad[:2]:
+            chk.violation(f"C07: {b}", {})
+    chk.note("peak_durations_judged_against_definition", tot)
+    chk.evaluations += tot
+
+
 def run(pid: str) -> int:
     chk = Check(pid)
     chk.rule = ("TLC enumerates (horizon, month-of-year slot, month input class: peaks present/absent x peak days first/middle/last x "
@@ -449,6 +569,9 @@ def run(pid: str) -> int:
         from .p_calendar import month_helpers  # noqa: PLC0415
 
         month_helpers(chk)
+    if pid == "C07":
+        two_day_windows(chk)
+        duration_definition(chk)
     # is the listed finding F14 still present on the model?  (a violated F14Present means it is)
     t = tier()
     mod, consts = mc(input_classes(t), horizons(t), FIXED)
